@@ -567,6 +567,41 @@ func addKeys(out *[]*program) {
 	}
 }
 
+// addGenerics: the callee is a GENERIC function (defgeneric + one defmethod, or defmethod alone). The caller may be
+// defined, and called, before the generic function exists: the call site compiled against a name that did not exist
+// must reach the generic function once it does, and defgeneric / defmethod must accept a name that so far was only
+// called. The method is redefined (same specializers) in the redefinition modes.
+func addGenerics(out *[]*program) {
+	for ci := range ctxs {
+		c := &ctxs[ci]
+		if c.name == "seq" {
+			continue
+		}
+		for a := 1; a <= 2; a++ {
+			args := argExprs(1, a, []string{"x", "x"})
+			ll := "((pa fixnum))"
+			if a == 2 {
+				ll = "((pa fixnum) pb)"
+			}
+			for _, withGeneric := range []bool{true, false} {
+				id := fmt.Sprintf("generic:%s:%d:%v", c.name, a, withGeneric)
+				p := &program{fam: "generic", id: id, thorough: !c.quick || (a == 2 && !withGeneric), feats: []string{"generic-function-callee"}}
+				p.defs = []string{"(defun @f1 (x) " + callExpr(c, 2, args) + ")"}
+				p.alts = []string{""}
+				if withGeneric {
+					p.defs = append(p.defs, "(defgeneric @f2 "+params(a, "req")+")")
+					p.alts = append(p.alts, "")
+					p.before = [][2]int{{1, 2}}
+				}
+				p.defs = append(p.defs, "(defmethod @f2 "+ll+" "+leafValue(a, 0)+")")
+				p.alts = append(p.alts, "(defmethod @f2 "+ll+" "+leafValue(a, 1)+")")
+				p.main = "(@f1 3)"
+				*out = append(*out, p)
+			}
+		}
+	}
+}
+
 // nestedCtxs: every context that wraps a form (14) around every context (19): the call sits two levels deep.
 func nestedCtxs() (out []*ctxDef) {
 	for oi := range ctxs {
@@ -671,6 +706,7 @@ func allPrograms() []*program {
 		addData(&progList)
 		addRebind(&progList)
 		addKeys(&progList)
+		addGenerics(&progList)
 		addNested(&progList)
 		progByID = map[string]*program{}
 		for _, p := range progList {
